@@ -343,6 +343,23 @@ def calc_gen_agree(rep, u):
         return inc, skip
     ci, cs = per_line(calc)
     gi, gs = per_line(gen)
+    # both sums start from zero: the accumulator is given 0 in the function before the loop (a size added into whatever the
+    # caller's variable held is not the size of the text)
+    for f_ in (calc, gen):
+        accs = set()
+        for h, body in f_.loops().items():
+            for b in body:
+                for e in f_.blocks[b].elems:
+                    for x, _ in walk(e):
+                        if x.get("k") == "bin" and x["op"] == "+=":
+                            accs.add(key(strip_casts(x["x"])))
+        for a in sorted(accs):
+            zero = any(x.get("k") == "bin" and x["op"] == "=" and key(strip_casts(x["x"])) == a and const_val(x["y"]) == 0
+                       for _p, _r, x, _ps in f_.nodes())
+            zero = zero or any(v.get("n") == a and v.get("init") is not None and const_val(v["init"]) == 0
+                               for _p, _r, x, _ps in f_.nodes() if x.get("k") == "decl" for v in x.get("vars", []))
+            (rep.proved if zero else rep.violated)("R-AGREE", f_, "sum-from-zero:%s" % a, "%s: the running total '%s' starts at 0" % (f_.name, a),
+                                                   "" if zero else "no assignment of 0 in the function: the result includes whatever the caller's variable held")
     desc = "ini_buf_calc_size adds per line exactly what ini_buf_gen writes per line, under the same skip condition"
     ok = ci == gi and ci["data"] == 1 and bool(cs) and set(cs) == set(gs)
     (rep.proved if ok else rep.violated)("R-AGREE", calc, "calc-vs-gen", desc, "calc adds %s (skip %s), gen writes %s (skip %s)" % (ci, cs, gi, gs))
